@@ -1083,3 +1083,23 @@ package control
 //@   at call builtin:delete#2 assert a0 == shard.pool && (dead2() || (!cur2() && !surv2()))
 //@   at call createEndpointLocked#1 assert a1 == key && a2 == createOption
 //@   at call UdpEndpoint).Close#1 assert a0 == staleToClose && staleToClose != nil
+
+// C16 (the kernel connectivity bit follows the group's alive state): the callback writes, into the slot of this
+// outbound and network type, 1 when the group became alive and 0 when its last alive node died - also for the
+// initial notification of a dry run; later dry-run notifications and those of a closed/retired core write nothing.
+//@ func (*controlPlaneCore).outboundAliveChangeCallback$1
+//@   anchorsonly
+//@   nonilcheck
+//@   dyncalls noeffect
+//@   modifies *
+//@   at call IsLevelEnabled#1 assert isInit || !dryrun
+//@   at call outboundConnectivityMapKey#1 assert a0 == outbound && a1 == networkType
+//@   at call Map).Update#1 assert unbox(a1, "uint32") == key && unbox(a2, "uint32") == (alive ? 1 : 0) && calls("outboundConnectivityMapKey") == 1
+// UDP endpoints of a node are invalidated exactly when the node died for data UDP (never for a DNS-UDP or TCP
+// transition, never on revival)
+//@ func (*controlPlaneCore).dialerAliveTransitionCallback$1
+//@   anchorsonly
+//@   nonilcheck
+//@   dyncalls noeffect
+//@   modifies *
+//@   at call InvalidateDialerNetworkType#1 assert a1 == d && a2 == networkType && !alive && d != nil && networkType.L4Proto == consts.L4ProtoStr_UDP && networkType.EffectiveUdpHealthDomain() != dialer.UdpHealthDomainDns
